@@ -489,3 +489,68 @@ def obligations_long_lookahead(prefix='O4.10'):
             Ob(prefix + '-long-lookahead-127', 'impl block with a trait path of 128 segments', ob_long_lookahead, ('quick', 'thorough'), 30, dict(ks=(127,))),
             Ob(prefix + '-long-lookahead-128', 'impl block with a trait path of 129 segments', ob_long_lookahead, ('quick', 'thorough'), 30, dict(ks=(128,))),
             Ob(prefix + '-long-lookahead-300', 'impl block with a trait path of 301 segments', ob_long_lookahead, ('thorough',), 60, dict(ks=(300,)))]
+
+# ----------------------------------------------------------------------------- O11.8 trivia may stand anywhere: inserting a comment / blank into a valid program changes nothing but the trivia
+def tree_signature(pw, ex, out):
+    """recorder ops without the trivia tokens: node starts / finishes and the kinds of the non-trivia tokens, in order"""
+    sig = []; triv_sk = None
+    for op in out['ops']:
+        if op[0] == 'token':
+            txt = ms.pystr(ex.deref(op[2])); sig.append(('token', txt))
+        elif op[0] == 'start': sig.append(('start', op[1] if isinstance(op[1], int) else str(op[1])))
+        else: sig.append(('finish',))
+    return sig
+
+def ob_trivia_anywhere(r, tier, seed, shard, nshards):
+    pw = PW(); sk = skeletons(pw)
+    mine = [s_ for i, s_ in enumerate(sk) if i % nshards == shard]
+    r.bounds = '%d of %d valid skeletons (<= %d tokens each); a trivia token (whitespace or comment: solver decision) inserted at every position, including before the first and after the last token' % (len(mine), len(sk), max(len(k) for _, k in sk))
+    r.assumptions = ['as O4.2-seq: abstract token texts/ranges, TokenKind Display stubbed, rowan recorder', 'oracle (C11: programs rendered with arbitrary trivia parse to the same tree): with the trivia token inserted the parser reports no diagnostic and builds the same tree - same nodes, same non-trivia tokens in the same places - as without it']
+    triv = list(pw.trivia)
+    for text, kinds in mine:
+        L = len(kinds)
+        def run(ex, specs, names):
+            toks = PyVec([Agg(pw.TOK.key, 0, [kind_value(pw, ex, k, 'k%d' % i), mkstr(nm), Agg('TextRange', 0, [i, i + 1])]) for i, (k, nm) in enumerate(zip(specs, names))])
+            p = ex.call('Parser::new', [Opaque('path'), toks], 'parser'); h = [p]
+            try: ex.call('file::file', [Ref(h, 0)], 'parser')
+            except Limit as e: raise Panic('HANG-CANDIDATE: ' + str(e))
+            res = ex.call('Parser::build_tree', [h[0]], 'parser')
+            b = res.fields[0]; diags = res.fields[1]; ditems = diags.fields[0].items if isinstance(diags, Agg) else diags.items
+            sig = []
+            for op in b.ops:
+                if op[0] == 'token':
+                    nm = ms.pystr(ex.deref(op[2]))
+                    if nm != 'TRIVIA': sig.append(('token', nm))
+                elif op[0] == 'start': sig.append(('start', int(op[1]) if not ms.is_sym(op[1]) else str(op[1])))
+                else: sig.append(('finish',))
+            return sig, len(ditems)
+        base = e2.explore(r, pw.W, lambda ex: run(ex, list(kinds), ['t%d' % i for i in range(L)]), [])
+        if len(base) != 1 or base[0].kind != 'ok': raise Unsupported('skeleton %r does not parse on one path: %s' % (text, base[0].value if base else None))
+        bsig, bd = base[0].value
+        if bd: raise Unsupported('skeleton %r has parser diagnostics' % text)
+        for i in range(L + 1):
+            hv = z3.Int('h')
+            specs = list(kinds[:i]) + [hv] + list(kinds[i:]); names = ['t%d' % j for j in range(i)] + ['TRIVIA'] + ['t%d' % j for j in range(i, L)]
+            def entry(ex, specs=specs, names=names):
+                ex.restrict(hv, triv)
+                return run(ex, specs, names)
+            res = e2.explore(r, pw.W, entry, [])
+            for p in res:
+                r.cases += 1
+                if p.kind != 'ok':
+                    if (ACCEPT_KEYS is None or 'panic' in ACCEPT_KEYS) and not any(f.key == 'panic' for f in r.findings):
+                        r.findings.append(Finding('panic', 'parser on skeleton %r with a trivia token inserted at %d: %s' % (text, i, str(p.value)[:200]), {'skeleton': text, 'position': i}, False, 'not replayed'))
+                    continue
+                sig, nd = p.value; r.nontrivial += 1
+                if nd or sig != bsig:
+                    if any(f.key == 'trivia-changes-parse' for f in r.findings): continue
+                    m, _ = e2.check(list(p.pc)); kname = pw.kinds[e2.mval(m, hv)]
+                    knames = list(kinds[:i]) + [kname] + list(kinds[i:])
+                    nat = native_parse(knames, table=pw.kinds); nat0 = native_parse(list(kinds), table=pw.kinds)
+                    nd_ = nat.get('ok', {}).get('diagnostics', 0) if 'ok' in nat else 0; ndn = len(nd_) if isinstance(nd_, list) else int(nd_)
+                    ok_ = bool(nat.get('panic')) or ndn > 0 or ('ok' in nat and 'ok' in nat0 and nat['ok'].get('shape') != nat0['ok'].get('shape'))
+                    r.findings.append(Finding('trivia-changes-parse', 'skeleton `%s`: with a %s token inserted before token %d the parser reports %d diagnostics%s' % (text, kname, i, nd, '' if sig == bsig else ' and builds a different tree'), {'skeleton': text, 'position': i, 'kind': kname}, ok_, json.dumps(nat)[:300]))
+        if len(r.samples) < 3: r.samples.append({'skeleton': text, 'positions': L + 1})
+
+def obligations_trivia(prefix='O11.8'):
+    return [Ob(prefix + '-trivia-anywhere-s%d' % sh, 'a comment or blank inserted anywhere in a valid program does not change the tree', ob_trivia_anywhere, ('quick', 'thorough'), 20, dict(shard=sh, nshards=8)) for sh in range(8)]
